@@ -254,3 +254,27 @@ def run(chk: Check, eng: Engine) -> None:
             else:
                 chk.bad("R20-d", eng.relfile(ei), a.line, ei.fq, "a tree can enter the hold-back set without passing the acceptance test",
                         "an unsatisfying message can be sent as fallback", path=ecfg.describe_path(p), keyparts="holdback-unguarded")
+
+
+# ------------------------------------------------------------------ self-test variants
+from ..mutants import M  # noqa: E402
+
+_IO = "src/fandango/io/__init__.py"
+_ALG = "src/fandango/evolution/algorithm.py"
+_EV = "src/fandango/evolution/evaluation.py"
+MUTANTS = [
+    M("received-msg-unlocked", _IO, "        with self.receive_lock:\n            return len(self.receive) != 0", "        return len(self.receive) != 0", "R20-a"),
+    M("clear-by-party-unlocked", _IO, "        with self.receive_lock:\n            self.receive = [\n                (sender, receiver, msg)", "        if True:\n            self.receive = [\n                (sender, receiver, msg)", "R20-a"),
+    M("add-receive-lock-per-fragment", _IO, "        with self.receive_lock:\n            if isinstance(message, bytes):\n                for fragment_int in message:\n                    self.receive.append((sender, receiver, bytes([fragment_int])))",
+      "        if True:\n            if isinstance(message, bytes):\n                for fragment_int in message:\n                    with self.receive_lock:\n                        self.receive.append((sender, receiver, bytes([fragment_int])))", "R20-c"),
+    M("add-receive-prepends", _IO, "                for fragment_str in message:\n                    self.receive.append((sender, receiver, fragment_str))", "                for fragment_str in message:\n                    self.receive.insert(0, (sender, receiver, fragment_str))", "R20-c"),
+    M("accept-on-approximate-fitness", _ALG, "                        if fitness == 1.0:\n                            hookin_success = True\n                            break", "                        hookin_success = True\n                        if fitness == 1.0:\n                            break", "R20-d"),
+    M("no-raise-on-violation", _ALG, "                    if not hookin_success:\n                        raise FandangoParseError(\n                            \"Remote response does not match constraints\"\n                        )",
+      "                    if not hookin_success:\n                        LOGGER.warning(\"Remote response does not match constraints\")", "R20-d"),
+    M("violation-raises-failed-error", _ALG, "                        raise FandangoParseError(\n                            \"Remote response does not match constraints\"\n                        )", "                        raise FandangoFailedError(\n                            \"Remote response does not match constraints\"\n                        )", "R20-d"),
+    M("holdback-below-threshold", _EV, "        if fitness < self._expected_fitness:\n            return fitness, failing_trees, suggestion\n", "        if fitness < self._expected_fitness - 0.2:\n            return fitness, failing_trees, suggestion\n", "R20-d",
+      more=(("        if fitness >= self._expected_fitness:\n            if msg is None:", "        if True:\n            if msg is None:"),)),
+]
+TWINS = [
+    M("twin-lock-alias", _IO, "        with self.receive_lock:\n            return list(self.receive)", "        with self.receive_lock:\n            snapshot = list(self.receive)\n            return snapshot", None),
+]
